@@ -465,7 +465,9 @@ func (e *Executor) GetTask(call *Call) (*ast.Task, error) {
 		if call.Vars == nil {
 			call.Vars = ast.NewVars()
 		}
-		call.Vars.Set("MATCH", ast.Var{Value: matchingTasks[0].Wildcards})
+		// The matched substrings are data: Live keeps the variable resolution
+		// from running them through the template engine
+		call.Vars.Set("MATCH", ast.Var{Value: matchingTasks[0].Wildcards, Live: matchingTasks[0].Wildcards})
 		return matchingTasks[0].Task, nil
 	}
 
